@@ -765,66 +765,67 @@ def pruneset(ctx):
         raise EngineError("PRUNESET: anchor lost: %s" % p)
     fa = E.fa(p)
     S = Sym(E, fa)
-    # the returned tables: origins of the result tuple's operands
-    returned = set()
-    for b, i, s in fa.stmts():
-        if "lhs" in s and s["lhs"]["l"] == 0 and s["rv"]["k"] == "agg":
-            for o in s["rv"]["ops"]:
-                oo = fa.origin(o)
-                if oo[0] == "call":
-                    returned.add(oo[1])
-    fills = {b: t for b, t in calls_named(fa, "from_elem") if b in returned}
-    if len(fills) != 2:
-        raise EngineError("PRUNESET: the two returned feature tables were not recognised")
-    cons = [(b, t) for b, t in calls_named(fa, "contains")]
-    ctx.floor("PRUNESET", "membership tests in create_raw_connector", len(cons), 2)
-    k = 0
-    for b, t in cons:
-        e = S.operand(t["args"][0])
-        ok, why = False, "set built in an unrecognised way (%s)" % show(e)[:60]
-        if e[0] == "call" and short(e[1]) == "collect":
-            # collect(<iterator chain over table>)
-            src = e[2][0] if e[2] else None
-            root = None
-            cur = t["args"][0]
-            o = fa.origin(cur)
-            # follow the iterator chain of the collect call back to a table
-            if o[0] == "call":
-                c2 = o[2]["args"][0] if o[2]["args"] else None
-                for _ in range(8):
-                    if c2 is None:
-                        break
-                    oo = fa.origin(c2)
-                    if oo[0] != "call":
-                        break
-                    if oo[1] in fills:
-                        root = oo[1]
-                        break
-                    nm = short(strip_generics(sorted(callee_paths(oo[2]))[0]))
-                    if nm not in ("iter", "cloned", "copied", "deref", "into_iter", "as_slice"):
-                        break
-                    c2 = oo[2]["args"][0] if oo[2]["args"] else None
-            ok = root is not None
-            why = "all elements of a returned table (initial BOS/EOS row included)" if ok else \
-                "collected from something other than a returned table"
-        elif e[0] == "call" and short(e[1]) in ("new", "default", "with_capacity"):
-            # built by inserts: the fill value of the tables must be inserted too
+    # the feature tables built here: a vector created with a fill value (`vec![v; n]`, or
+    # `resize(n, v)` on a fresh vector) that then receives the copied ids by push
+    fills = {}          # table variable -> text of the fill value
+    for b, t in calls_named(fa, "from_elem"):
+        if "U31" in (t.get("dest_ty") or fa.fn.locals[t["dest"]["l"]]["ty"]):
+            fills[("call", b)] = show(S.operand(t["args"][0]))
+    for b, t in calls_named(fa, "resize"):
+        if len(t["args"]) >= 3:
             o = fa.origin(t["args"][0])
+            key = ("call", o[1]) if o[0] == "call" else ("var", table_var(fa, t["args"][0]))
+            fills[key] = show(S.operand(t["args"][2]))
+    if len(fills) != 2:
+        raise EngineError("PRUNESET: the two feature tables with their initial fill were not recognised "
+                          "(found %d)" % len(fills))
+    fillv = set(fills.values())
+    # the sets: HashSets collected from a table, or grown by insert()
+    k = 0
+    nsets = 0
+    for b, t in fa.calls():
+        nm = short(strip_generics(sorted(callee_paths(t))[0])) if callee_paths(t) else ""
+        dty = t.get("dest_ty") or fa.fn.locals[t["dest"]["l"]]["ty"]
+        if "HashSet<" not in dty or "U31" not in dty:
+            continue
+        if nm == "collect":
+            root = None
+            c2 = t["args"][0] if t["args"] else None
+            for _ in range(8):
+                if c2 is None:
+                    break
+                oo = fa.origin(c2)
+                if oo[0] != "call":
+                    break
+                if ("call", oo[1]) in fills:
+                    root = oo[1]
+                    break
+                n2 = short(strip_generics(sorted(callee_paths(oo[2]))[0]))
+                if n2 not in ("iter", "cloned", "copied", "deref", "into_iter", "as_slice"):
+                    break
+                c2 = oo[2]["args"][0] if oo[2]["args"] else None
+            ok = root is not None
+            why = "all elements of a table (initial BOS/EOS row included)" if ok else \
+                "collected from something other than a feature table"
+        elif nm in ("new", "default", "with_capacity"):
             ins = []
             for ib, it in calls_named(fa, "insert"):
                 oo = fa.origin(it["args"][0])
-                if oo[0] == "call" and o[0] == "call" and oo[1] == o[1]:
+                if (oo[0] == "call" and oo[1] == b) or table_var(fa, it["args"][0]) == t["dest"]["l"]:
                     ins.append(show(S.operand(it["args"][1])))
-            fillv = {show(S.operand(ft["args"][0])) for ft in fills.values()}
             ok = bool(fillv & set(ins))
             why = "built by insert() including the tables' fill value" if ok else \
                 "built by insert() of the copied ids only (%s): the rows created by the initial " \
                 "fill (%s, the BOS/EOS row) are missing" % (sorted(set(ins))[:2], sorted(fillv))
-        ctx.ob("PRUNESET", "%s|contains|%d" % (p, k), ok, fa.loc(b),
+        else:
+            continue
+        nsets += 1
+        ctx.ob("PRUNESET", "%s|set|%d" % (p, k), ok, fa.loc(b),
                "the pruning set holds %s" % why if ok else
-               "the set tested while pruning the scorer is %s: cost lines with an empty "
+               "a set used while pruning the scorer is %s: cost lines with an empty "
                "(BOS/EOS) feature are removed from the dual connector's raw part" % why)
         k += 1
+    ctx.floor("PRUNESET", "used-feature sets in create_raw_connector", nsets, 2)
 
 
 def run(ctx):
